@@ -1,4 +1,5 @@
 import Model.Broker
+import Proofs.SessionFresh
 /-
   Proofs/BrokerProc.lean — helper lemmas about the processor / lifecycle part of the broker model
   (`recv`, `kill`, `cleanup`, `ackVia`, `setupAndConnack`) used by Props/C07, C12, C20.
@@ -662,14 +663,18 @@ theorem lastDequeue_mem (s s1 : BState) (c : ConnId) (x : BConn) (h : s1 ∈ las
       simp only [List.mem_cons, List.mem_append] at h
       have key : ∀ (sq : List Message) (tq : List (Nat × Message)) (m : Message),
           ∀ s1, s1 = (if (applyQOS b m).qos = 0 then s.setSessOf c ⟨b.subs, sq, tq, b.sess, b.active⟩
-                  else s.setSessOf c ⟨b.subs, sq, tq, (b.sess.nextID).2.savePacket .outgoing (.publish (applyQOS b m) false (b.sess.nextID).1), b.active⟩) →
+                  else if (b.sess.freshID).1 = 0 then s.setSessOf c ⟨b.subs, sq, tq, (b.sess.freshID).2, b.active⟩
+                  else s.setSessOf c ⟨b.subs, sq, tq, (b.sess.freshID).2.savePacket .outgoing (.publish (applyQOS b m) false (b.sess.freshID).1), b.active⟩) →
           ∃ b0 b', s.sessOf c = some b0 ∧ s1 = s.setSessOf c b' ∧ b'.sess.incoming = b0.sess.incoming ∧
             b'.subs = b0.subs ∧ b'.active = b0.active ∧ x.running = true ∧ x.deqHand = true := by
         intro sq tq m s1 hs1
         split at hs1
         · exact ⟨b, _, hb, hs1, rfl, rfl, rfl, hrd'⟩
-        · refine ⟨b, _, hb, hs1, ?_, rfl, rfl, hrd'⟩
-          simp only [savePacket_outgoing_incoming, nextID_incoming]
+        · split at hs1
+          · refine ⟨b, _, hb, hs1, ?_, rfl, rfl, hrd'⟩
+            simp only [MemorySession.freshID_incoming]
+          · refine ⟨b, _, hb, hs1, ?_, rfl, rfl, hrd'⟩
+            simp only [savePacket_outgoing_incoming, MemorySession.freshID_incoming]
       rcases h with h | h | h
       · exact Or.inl h
       · right
